@@ -16,6 +16,7 @@ of the functions concerned:
   G5  a lambda created in a `for` loop that reads the loop variable is consumed within the iteration (map / tree_map / sorted / ...);
       handed to anything that stores it, all such lambdas see the last value (late binding). One reviewed site on the reference tree.
   G6  `d.setdefault(k, [v])` as a bare statement in a loop (the element is recorded only for the first k). None on the reference tree.
+  G7  a memoised function (lru_cache / cache) reads the mutable global configuration (`config.<flag>`). No memoised function on the reference tree.
 
 Nothing is reported for functions that do not exist on the reference tree (G1) or for code the rule
 cannot resolve (G3: unresolved callee, star arguments).
@@ -359,6 +360,22 @@ def g6_setdefault_statement(R, repo, rels):
     R.ok(key_of(rel, 'no element dropped by a bare setdefault(k, [v])'), m)
 
 
+def g7_cached_reads_config(R, repo, rels):
+  """A memoised function (functools.lru_cache / cache) whose body reads the mutable global configuration (`config.<flag>`): the
+  flag is not part of the cache key, so a result computed under one setting is served under another."""
+  for rel in rels:
+    if rel not in repo._paths:
+      continue
+    m = repo.mod(rel)
+    for q, f in sorted(m.funcs.items()):
+      if not any('lru_cache' in astu.src(d) or astu.src(d).split('(')[0].endswith('.cache') or astu.src(d) == 'cache' for d in f.node.decorator_list):
+        continue
+      reads = [x for x in ast.walk(f.node) if isinstance(x, ast.Attribute) and isinstance(x.value, ast.Name) and x.value.id in ('config', 'flax_config') and isinstance(x.ctx, ast.Load)]
+      if reads:
+        R.fail(key_of(f, 'memoised result does not depend on global configuration'), (f, reads[0]), '%s is memoised, but its body reads `%s`: the flag is not part of the cache key, so after the flag changes the function keeps returning what it computed under the old setting' % (q, astu.short(reads[0])))
+    R.ok(key_of(rel, 'no memoised function reads the global configuration'), m)
+
+
 def run(R, repo, prop):
   rels = rule_files(prop)
   R.require(bool(rels), 'no anchor files for %s' % prop)
@@ -370,6 +387,7 @@ def run(R, repo, prop):
   g4_repeated_mutable(R, repo, rels)
   g5_late_binding(R, repo, rels)
   g6_setdefault_statement(R, repo, rels)
+  g7_cached_reads_config(R, repo, rels)
 
 
 def ensure(prop, registry, RuleSpec):
@@ -381,4 +399,4 @@ def ensure(prop, registry, RuleSpec):
 
   def fn(R, repo, _prop=prop):
     run(R, repo, _prop)
-  specs.append(RuleSpec(rid, 'K6+K12', 6 * n, 'bug patterns over the anchored files: option accepted but no longer read, optional value tested by truthiness, same-named arguments transposed, repeated mutable container, loop variable captured by a stored lambda, bare setdefault(k, [v])', fn))
+  specs.append(RuleSpec(rid, 'K6+K12', 7 * n, 'bug patterns over the anchored files: option accepted but no longer read, optional value tested by truthiness, same-named arguments transposed, repeated mutable container, loop variable captured by a stored lambda, bare setdefault(k, [v])', fn))
